@@ -15,7 +15,7 @@ for p in props:
             'evidence_file': '/verif/evidence/%s.json' % p,
             'replay_cmd_template': './check %s --replay {path}' % p,
             'engine': 'contracts',
-            'level_claimed': {'category': 'proof', 'text': c['text'], 'design_ref': c.get('design_ref', 'DESIGN.md section 5 / ' + p)},
+            'level_claimed': {'category': c.get('level', 'proof'), 'text': c['text'], 'design_ref': c.get('design_ref', 'DESIGN.md section 5 / ' + p)},
             'level_note': c['note'],
             'technique': c.get('technique', 'contract-based deductive verification (Verus requires/ensures/invariants on mechanically extracted real functions)'),
         })
